@@ -3,6 +3,7 @@ package checks
 import (
 	"context"
 	"fmt"
+	"runtime"
 	"sync"
 	"sync/atomic"
 	"testing/synctest"
@@ -24,6 +25,11 @@ func init() {
 // part 2 calls the public API while the agent's loop goroutine is parked in the middle of a task.
 func runC10(c *core.Ctx) {
 	if c.T.Bias(1, 6, "part2") {
+		if c.T.Bias(1, 3, "part3") {
+			c.Knob("part", 3)
+			runC10OneShot(c)
+			return
+		}
 		c.Knob("part", 2)
 		runC10API(c)
 		return
@@ -432,4 +438,96 @@ func runC10API(c *core.Ctx) {
 		}
 	}
 	c.Probe(fmt.Sprintf("api-phase-%d", phase))
+}
+
+// runC10OneShot: one-shot operations issued concurrently while the loop is busy must behave as if they had
+// run one after the other: of two overlapping Start calls (Dial/Accept in any combination) exactly one
+// succeeds and the others report that the agent was already started. (Overlapping GatherCandidates are NOT
+// judged this way: the gathering state is advanced by the cycle's own goroutine, a second call that arrives
+// before that cancels the first cycle and starts another, which the code handles deliberately - demanding
+// ErrMultipleGatherAttempted there was a false alarm of an earlier version of this check.)
+func runC10OneShot(c *core.Ctx) {
+	w := simnet.NewWorld()
+	h := w.SimpleHost("A", "10.0.1.10")
+	ice.VerifSeedGlobalRand(1)
+	ag, err := rig.NewAgent("A", h, time.Now(), ice.WithNetworkTypes([]ice.NetworkType{ice.NetworkTypeUDP4}),
+		ice.WithCandidateTypes([]ice.CandidateType{ice.CandidateTypeHost}))
+	if err != nil {
+		c.Failf("harness/setup", "%v", err)
+		return
+	}
+	c.Defer(func() { _ = ag.A.Close() })
+	// keep the loop busy with a task that blocks until released (an option applied through UpdateOptions runs
+	// on the loop)
+	release := make(chan struct{})
+	busy := make(chan struct{})
+	go func() {
+		_ = ag.A.UpdateOptions(func(*ice.Agent) error {
+			close(busy)
+			<-release
+			return nil
+		})
+	}()
+	<-busy
+	kind := 0
+	n := c.T.Range(2, 3, "ncalls")
+	type res struct {
+		name string
+		err  error
+		done atomic.Bool
+	}
+	var calls []*res
+	for i := 0; i < n; i++ {
+		r := &res{}
+		calls = append(calls, r)
+		dial := c.T.Bias(1, 2, "dial")
+		go func() {
+			switch kind {
+			case 0:
+				if dial {
+					r.name = "StartDial"
+					_, r.err = ag.A.StartDial("peerufrag", "peerpwdxxxxxxxxxxxxxxxxxxxxxxxx")
+				} else {
+					r.name = "StartAccept"
+					_, r.err = ag.A.StartAccept("peerufrag", "peerpwdxxxxxxxxxxxxxxxxxxxxxxxx")
+				}
+			}
+			r.done.Store(true)
+		}()
+	}
+	// The callers serialise on a mutex of the agent while one of them waits for the loop; a goroutine
+	// blocked on a mutex is not durably blocked, so no synctest.Wait/Sleep until all of them returned:
+	// plain yields let them run up to their blocking points (GOMAXPROCS=1: deterministic).
+	for i := 0; i < 20; i++ {
+		runtime.Gosched()
+	}
+	c.Fault("overlapping-one-shot-calls")
+	close(release)
+	for i := 0; i < 10000; i++ {
+		all := true
+		for _, r := range calls {
+			if !r.done.Load() {
+				all = false
+			}
+		}
+		if all {
+			break
+		}
+		runtime.Gosched()
+	}
+	ok, names := 0, ""
+	for _, r := range calls {
+		if !r.done.Load() {
+			c.Failf("C10/one-shot-call-never-returns", "%s did not return after the loop was released", r.name)
+			return
+		}
+		names += fmt.Sprintf("%s=%v ", r.name, r.err)
+		if r.err == nil {
+			ok++
+		}
+	}
+	if ok != 1 {
+		c.Failf("C10/overlapping-starts-not-serialised", "%d of %d overlapping calls succeeded (exactly one must, the others must see its effect): %s", ok, n, names)
+	}
+	c.Probe(fmt.Sprintf("one-shot-kind-%d", kind))
 }
